@@ -196,3 +196,35 @@ func drawOpsSched(t *rapid.T, nprocs int) SchedSpec {
 	}
 	return sp
 }
+
+// cancelFamily rewrites every transaction of the case into one over three names, half of
+// them deletions, without logs and without a per-transaction unique ref - so that
+// compactions whose result is EMPTY (the list only shrinks), stacks that become empty
+// again, and reloads that open no new table actually occur.
+func cancelFamily(t *rapid.T, c *Case, hs int) {
+	names := []string{"refs/heads/a", "refs/heads/b", "HEAD"}
+	mk := func() HTx {
+		tx := HTx{}
+		for i := 0; i < rapid.IntRange(1, 2).Draw(t, "cn"); i++ {
+			r := HRef{Name: Str(rapid.SampledFrom(names).Draw(t, "cname")), Kind: gen.KDel}
+			if rapid.Bool().Draw(t, "cval") {
+				r.Kind, r.Val = gen.KVal, PoolHash(t, hs)
+			}
+			tx.Refs = append(tx.Refs, r)
+		}
+		return tx
+	}
+	c.Init = nil
+	for i := 0; i < rapid.IntRange(0, 4).Draw(t, "cinit"); i++ {
+		tx := mk()
+		c.Init = append(c.Init, InitOp{Tx: &tx})
+	}
+	for p := range c.Progs {
+		for i := range c.Progs[p].Ops {
+			op := &c.Progs[p].Ops[i]
+			for j := range op.Txs {
+				op.Txs[j] = mk()
+			}
+		}
+	}
+}
